@@ -120,7 +120,8 @@ TPanic ==
         /\ \/ OutOfMemory(Targets(Ev.dev), Pages(Ev.bytes), FALSE)
            \/ OutOfMemoryBuddy(Targets(Ev.dev), Pages(Ev.bytes), FALSE)
         /\ Note(devUsed' \ dvBefore)
-     \/ /\ Ev.op = "Dist" /\ OutOfMemory({Ev.gpus[j] : j \in 1..Len(Ev.gpus)}, Pages(Ev.bytes), FALSE)
+     \/ /\ Ev.op = "Dist" /\ Len(Ev.gpus) > 1
+        /\ OutOfMemory({Ev.gpus[j] : j \in 1..Len(Ev.gpus)}, DistMax(Pages(Ev.bytes), Len(Ev.gpus)), FALSE)
         /\ Note(devUsed' \ dvBefore)
      \/ /\ Ev.op = "Mig" /\ OutOfMemory({Ev.gpu}, 1, FALSE)
         /\ Note(devUsed' \ dvBefore)
